@@ -45,6 +45,7 @@ import re
 import shutil
 import sys
 import tempfile
+import time
 import types
 
 from vlib import common
@@ -75,6 +76,10 @@ LATE_PREFIX = "late_model_evaluation"
 
 class Interrupt(BaseException):
     pass
+
+
+class Runaway(Exception):
+    """more pipeline launches than any terminating execution of this configuration can make"""
 
 
 class FakeFailure(Exception):
@@ -411,6 +416,10 @@ class Run:
         self.main = main          # drive the script's main() (one call = one process run) instead of the step function
         self.restart = restart or main    # a fresh module object for every call after an interruption / exception (process restart)
         self.extra_bad = None
+        steps = cfg["P"] + 1 if cfg["mode"] == "r" else cfg["B"]
+        # every loop that drives the real script is bounded: launches per process run, calls per run, wall clock per case
+        self.launch_cap = 4 * (steps + cfg["B"]) + 10 + 4 * len(list(crashes))
+        self.deadline = time.time() + 60
         self.saw = set()          # directory states met at the start of a call of the step function
         self.crashes = list(crashes)
         self.pre = pre            # crash-free process runs executed first (prospective: earlier iterations)
@@ -501,6 +510,8 @@ class Run:
         if opts.get("-work-dir") != os.path.join(out, "work"):
             raise FakeFailure("unexpected work dir")
         self.modelled_done = False
+        if len(self.launches) >= self.launch_cap or time.time() > self.deadline:
+            raise Runaway()
         text = show_launch(l)
         self.events.append("L" + text)
         self.launches.append([(st[0], st[1]), text, False, l])
@@ -595,6 +606,8 @@ class Run:
                     except RuntimeError as e:
                         m = re.search(r"Consider deleting this directory to continue simulation: (.*)$", str(e))
                         outcome = ("named", m.group(1)) if m else ("failed", "RuntimeError")
+                    except Runaway:
+                        outcome = ("failed", "no-termination")
                     except FakeFailure:
                         outcome = ("failed", "PipelineFailure")
                     except Exception as e:  # noqa
@@ -650,6 +663,9 @@ class Run:
                         shutil.rmtree(outcome[1])
                         self.events.append("U%d.%d" % st if st and os.path.basename(named).startswith("plate_") else "U?")
                         continue
+                    if outcome[1] == "no-termination":
+                        status = "no-termination"
+                        break
                     self.events.append("F" + outcome[1])
                     status = "failed:" + outcome[1]
                     break
@@ -690,7 +706,8 @@ def judge(run, ref):
     out = []
     B = run.cfg["B"]
     if ref.status != "ok":
-        return [("reference", "the uninterrupted run does not finish", ref.status, "ok", None)]
+        return [("reference", "the uninterrupted run does not terminate: a step is launched again and again" if ref.status == "no-termination"
+                 else "the uninterrupted run does not finish", ref.status, "ok", None)]
     if run.status != "ok":
         out.append(("finish", "after the interruption(s) the rerun does not finish like the uninterrupted run", run.status, "ok", None))
     ref_launch = {st: text for st, text, done, _l in ref.launches}
